@@ -36,6 +36,8 @@ ASSUMPTIONS = [
     "(radius, depth) limited so that one circle covers <= 2e3 (quick) / 5e4 (thorough) leaf triangles and "
     "n1 * triangles <= 1e6 / 5e6 (cost bound, DESIGN.md C12 B): every radius up to 180 occurs at the depths "
     "where it is affordable and every depth 1..13 with the radii affordable there",
+    "points with bitwise identical coordinates must match (at d12 == 0) for every radius >= 0, radius 0 included: "
+    "their separation is exactly 0, so the 1e-9 band (meant for rounding ambiguity) is not applied to them",
     "file values are compared to 16 significant digits (relative 2e-15), the precision the writer documents",
 ]
 TECHNIQUE = ("Hypothesis-generated point configurations built constructively around the search radius; "
@@ -218,6 +220,9 @@ class Setup(object):
         self.req = np.asarray(self.sep < rr - TOL)
         self.forb = np.asarray(self.sep > rr + TOL)
         self.same = (self.ra1[:, None] == self.ra2[None, :]) & (self.dec1[:, None] == self.dec2[None, :])
+        # "identical points match at zero distance": bitwise identical coordinates are exactly 0 apart,
+        # there is no rounding the 1e-9 band would have to absorb -- required for every radius >= 0
+        self.req = self.req | self.same
         self.maxmatch = int(case["maxmatch"])
 
     def subset(self, lo, hi):
